@@ -49,7 +49,16 @@ def case_stream(ctx):
     rng = ctx['rng']
     for cls, mk, ws, p in WITNESSES:
         pr = mspec.Probes()
-        yield ('witness:' + cls, mk(pr), pr, (ws, p))
+        yield ('witness:' + cls, mk(pr), pr, [(ws, p)])
+    # the targeted family: the pairs of item kinds: a seed-determined third in the quick tier, all otherwise; the others always
+    pairs, others = mspec.targeted_family()
+    rng.shuffle(pairs)
+    if ctx['tier'] == 'quick':
+        pairs = pairs[:len(pairs) // 3]
+    for st, pr, qs in others + pairs:
+        qs = list(qs)
+        rng.shuffle(qs)
+        yield ('targeted', [mspec.normalize_stmt(x) for x in st], pr, qs[:6] if ctx['tier'] == 'quick' else qs)
     n = 5 if ctx['tier'] == 'quick' else 6
     fam = mspec.exhaustive_family(n)
     small = [c for c in fam if _size(c[0][0][2]) <= 3]
@@ -82,10 +91,11 @@ def _size(e):
 def make_queries(rng, pathlist, vocab, nq, forced=None):
     prefixes = sorted(set(v[:k] for v in vocab for k in range(len(v) + 1)))
     qs = []
-    if forced:
-        qs.append((list(forced[0]), forced[1]))
+    for f in forced or []:
+        qs.append((list(f[0]), f[1]))
     allp = [[]] + pathlist
-    qs.append(([], ''))
+    if ([], '') not in qs:
+        qs.append(([], ''))
     tries = 0
     while len(qs) < nq and tries < nq * 6:
         tries += 1
@@ -113,26 +123,45 @@ class Prepared:
     __slots__ = ('kind', 'stmts', 'probes', 'text', 'expr', 'script', 'minimised', 'queries', 'wbs', 'stats')
 
 
-def prepare(ctx, exe, chunk, counters, nq, maxlen):
+def prepare(ctx, exe, chunk, counters, nq, maxlen, ties):
     texts = [gen.show_grammar(c[1]).encode('latin-1') for c in chunk]
-    dumps = impl.dump(exe, texts, ['check', 'min', 'script'], ['bash'])
+    dumps = impl.dump(exe, texts, ['parse', 'check', 'min', 'script'], ['bash'])
     acc = []
     for c, t, d in zip(chunk, texts, dumps):
         st = d['bash']
         if 'CRASH' in st or 'PANIC' in st:
             counters['crashed'] += 1          # C06's business; not judged here
             continue
-        if not st.get('CHECK', '').startswith('(ok ') or 'SCRIPT' not in st:
+        if not st.get('CHECK', '').startswith('(ok ') or 'SCRIPT' not in st or not st.get('PARSE', '').startswith('(ok '):
             counters['rejected_by_complgen'] += 1
             continue
         acc.append((c, t, st))
     if not acc:
         return []
+    # The validated tree handed to the specification is the one the *model* of check.rs computes from
+    # Rust's parse tree (definitions substituted, descriptions distributed, || levels assigned); Rust's
+    # own CHECK output is only compared with it (tie T1), so a wrong level in Rust cannot leak into the oracle.
+    mchk = model.run(['check bash %s' % st['PARSE'][4:-1] for _, _, st in acc])
+    acc2 = []
+    for (c, t, st), ml in zip(acc, mchk):
+        ok = ml.startswith('(ok ')
+        if ok:
+            msx = sexp.parse(ml)
+            same = sexp.dump(msx[2]) == sexp.dump(sexp.parse(st['CHECK'])[2])
+        if not ok or not same:
+            counters['t1_check_disagreements'] += 1
+            ties.append(report.Violation('tie T1 broken at stage check: model and implementation disagree on the validated tree',
+                                         dict(kind='tie-T1', stage='check', grammar=t.decode('latin-1'), impl=st['CHECK'][:2000], model=ml[:2000]),
+                                         found_input=False))
+            if not ok:
+                continue
+        acc2.append((c, t, st, sexp.dump(msx[2]), msx[2]))
+    if not acc2:
+        return []
     # quantifier's restriction, decided by the extracted Domain.C01_domain / C01_env_ok
-    exprs = [sexp.dump(mspec.check_expr(st['CHECK'])) for _, _, st in acc]
-    dom = model.run(['domain %s %s' % (e, mspec.env_sx(c[2].outs)) for (c, _, _), e in zip(acc, exprs)])
+    dom = model.run(['domain %s %s' % (e, mspec.env_sx(c[2].outs)) for (c, _, _, e, _) in acc2])
     keep = []
-    for (c, t, st), e, dl in zip(acc, exprs, dom):
+    for (c, t, st, e, esx), dl in zip(acc2, dom):
         if dl.startswith('(drivererror'):
             counters['model_error'] += 1
             continue
@@ -142,13 +171,13 @@ def prepare(ctx, exe, chunk, counters, nq, maxlen):
             if c[0].startswith('witness'):
                 raise RuntimeError('witness grammar outside the domain: ' + t.decode('latin-1'))
             continue
-        keep.append((c, t, st, e))
+        keep.append((c, t, st, e, esx))
     if not keep:
         return []
-    vocs = [mspec.vocabulary(mspec.check_expr(st['CHECK']), c[2].outs) for c, _, st, _ in keep]
-    pl = model.run([mspec.paths_request(e, c[2].outs, maxlen, 60, v) for (c, _, _, e), v in zip(keep, vocs)])
+    vocs = [mspec.vocabulary(esx, c[2].outs) for c, _, st, _, esx in keep]
+    pl = model.run([mspec.paths_request(e, c[2].outs, maxlen, 60, v) for (c, _, _, e, _), v in zip(keep, vocs)])
     out = []
-    for (c, t, st, e), v, line in zip(keep, vocs, pl):
+    for (c, t, st, e, esx), v, line in zip(keep, vocs, pl):
         if line.startswith('(drivererror'):
             counters['model_error'] += 1
             continue
@@ -166,7 +195,7 @@ def prepare(ctx, exe, chunk, counters, nq, maxlen):
                 p.wbs.append((None, ''))
             else:
                 p.wbs.append((None,) if ctx['rng'].random() < 0.5 else ('',))
-        p.stats = mspec.tree_stats(mspec.check_expr(st['CHECK']))
+        p.stats = mspec.tree_stats(esx)
         out.append(p)
     return out
 
@@ -215,17 +244,19 @@ def bash_answers(prepared):
     return res
 
 
-def single(exe, stmts, probes, ws, pre, wb):
-    """Full evaluation of one case (used by the shrinker and by replays).
-    -> None if the case is not judged (rejected / outside the domain / ambiguous / known class),
+def single_text(exe, text, outs, ws, pre, wb):
+    """Full evaluation of one case given as grammar text (bytes) + probe outputs.
+    -> None if the case is not judged (rejected / outside the domain / ambiguous),
        else (why, spec, got, flags)."""
-    text = gen.show_grammar(stmts).encode('latin-1')
-    st = impl.dump(exe, [text], ['check', 'script'], ['bash'])[0]['bash']
-    if not st.get('CHECK', '').startswith('(ok ') or 'SCRIPT' not in st:
+    st = impl.dump(exe, [text], ['parse', 'check', 'script'], ['bash'])[0]['bash']
+    if not st.get('CHECK', '').startswith('(ok ') or 'SCRIPT' not in st or not st.get('PARSE', '').startswith('(ok '):
         return None
-    e = sexp.dump(mspec.check_expr(st['CHECK']))
-    lines = model.run(['domain %s %s' % (e, mspec.env_sx(probes.outs)),
-                       mspec.meaning_request(e, probes.outs, mspec.DEFAULT_WB if wb is None else wb, [(ws, pre)])])
+    ml = model.run(['check bash %s' % st['PARSE'][4:-1]])[0]
+    if not ml.startswith('(ok '):
+        return None
+    e = sexp.dump(sexp.parse(ml)[2])
+    lines = model.run(['domain %s %s' % (e, mspec.env_sx(outs)),
+                       mspec.meaning_request(e, outs, mspec.DEFAULT_WB if wb is None else wb, [(ws, pre)])])
     if lines[0] != '(1 1)' or lines[1].startswith('(drivererror'):
         return None
     spec, flags = mspec.parse_meaning(lines[1])[0]
@@ -233,6 +264,32 @@ def single(exe, stmts, probes, ws, pre, wb):
         return None
     r, _ = bashrun.run_queries(str(sexp.parse(st['SCRIPT'])), [(ws, pre)], wordbreaks=wb, timeout=120)
     return mspec.judge(spec, r[0]), spec, r[0], flags
+
+
+def single(exe, stmts, probes, ws, pre, wb):
+    return single_text(exe, gen.show_grammar(stmts).encode('latin-1'), probes.outs, ws, pre, wb)
+
+
+def replay_file(exe, path, res):
+    """bin/check C01 --replay FILE: re-evaluates the recorded case on the current tree."""
+    import json
+    d = json.load(open(path))
+    wb = None if d.get('comp_wordbreaks', 'default') == 'default' else ''
+    r = single_text(exe, d['grammar'].encode('latin-1'), d.get('probe_outputs', {}), d['words'], d['prefix'], wb)
+    res.evaluations = 1
+    if r is None:
+        res.notes.append('replayed case is not judged on this tree (rejected, outside C01_domain, or ambiguous)')
+        return
+    why, spec, got, flags = r
+    print('replay: spec=%r bash=%r flags=%r -> %s' % (spec, got, flags, why or 'conforms'))
+    if why:
+        cls = None
+        for kf in KNOWN:
+            if flags[kf]:
+                cls = CLASS_OF[kf]
+        res.violations.append(report.Violation('C01 (replay): ' + why, dict(d, replayed=True, why=why), cls=cls))
+    else:
+        res.traces_validated = 1
 
 
 def subtrees(e):
@@ -312,13 +369,17 @@ CLASS_OF = {'piece_boundary': 'within_word_accepts_at_piece_boundary', 'last_wor
 def run(ctx, res):
     with build.Lock():
         exe = build.harness()
+    if ctx.get('replay'):
+        replay_file(exe, ctx['replay'], res)
+        res.rule = 'replay of one recorded case'
+        return
     quick = ctx['tier'] == 'quick'
-    budget = float(os.environ.get('VERIF_C01_BUDGET', 170 if quick else 1500))
+    budget = float(os.environ.get('VERIF_C01_BUDGET', 140 if quick else 1500))
     nq = 8 if quick else 24
     maxlen = 3 if quick else 5
     chunk_size = 32 if quick else 96
-    counters = dict(crashed=0, rejected_by_complgen=0, outside_C01_domain=0, model_error=0, ambiguous_queries=0,
-                    grammars_run=0, exhaustive_run=0, random_run=0, rc1_expected=0, nonempty_required=0,
+    counters = dict(t1_check_disagreements=0, crashed=0, rejected_by_complgen=0, outside_C01_domain=0, model_error=0, ambiguous_queries=0,
+                    grammars_run=0, targeted_run=0, exhaustive_run=0, random_run=0, rc1_expected=0, nonempty_required=0,
                     fallback_grammars=0, subword_grammars=0, command_grammars=0, anyword_grammars=0,
                     empty_wordbreaks_queries=0, chunks=0)
     stream = case_stream(ctx)
@@ -327,6 +388,7 @@ def run(ctx, res):
     unattributed = []
     absorbed = {k: 0 for k in KNOWN}
     witness_seen = {}
+    ties = []
     escapes = []
     first = True
     longest = 0.0
@@ -334,7 +396,7 @@ def run(ctx, res):
         first = False
         t_chunk = time.time()
         chunk = [next(stream) for _ in range(chunk_size)]
-        prepared = prepare(ctx, exe, chunk, counters, nq, maxlen)
+        prepared = prepare(ctx, exe, chunk, counters, nq, maxlen, ties)
         if not prepared:
             continue
         counters['chunks'] += 1
@@ -343,7 +405,7 @@ def run(ctx, res):
         longest = max(longest, time.time() - t_chunk)
         for gi, p in enumerate(prepared):
             counters['grammars_run'] += 1
-            counters['exhaustive_run' if p.kind == 'exhaustive' else 'random_run'] += 1
+            counters[{'exhaustive': 'exhaustive_run', 'targeted': 'targeted_run'}.get(p.kind, 'random_run')] += 1
             for key, flag in (('fallback_grammars', 'fb'), ('subword_grammars', 'sub'), ('command_grammars', 'cmd'),
                               ('anyword_grammars', 'nt')):
                 if p.stats[flag]:
@@ -417,6 +479,7 @@ def run(ctx, res):
             except Exception as e:    # the shrinker must never hide the finding
                 replay['shrink_error'] = repr(e)
         res.violations.append(report.Violation('C01: ' + why, replay))
+    res.violations.extend(ties[:3])
     for cls, failed in witness_seen.items():
         if not failed:
             res.notes.append('witness of known finding %s conforms on this tree (the finding may be stale)' % cls)
@@ -424,7 +487,7 @@ def run(ctx, res):
     res.exhaustive = False
     res.rule = ('one evaluation = one (grammar, words before the cursor, typed prefix, COMP_WORDBREAKS) query answered by real bash and '
                 'judged against the extracted Meaning.complete; non-trivial = grammar with >= 2 leaves and at least one complete word or a '
-                'non-empty prefix, not withheld as ambiguous; grammars: witnesses of known findings, the exhaustive family of trees over '
+                'non-empty prefix, not withheld as ambiguous; grammars: witnesses of known findings, a targeted family (two items of every pair of kinds {literal, within-word, command, any-word} expected at one point under | and ||, word-break stripping with a repeated break character), the exhaustive family of trees over '
                 '{a, b, <U>, one probe, --k=(x|y)} (all with <= 3 nodes, larger ones sampled in the quick tier), seeded random grammars; '
                 'only grammars complgen accepts and Domain.C01_domain/C01_env_ok (extracted) accept are run; the number of grammars is '
                 'bounded by a wall-clock budget (process creation is slow in the sandbox)')
